@@ -211,3 +211,6 @@ Print Assumptions c08_first_match.
 Print Assumptions c08_local_same.
 Print Assumptions c08_flush_adds.
 Print Assumptions c08_shared_same_rule.
+
+(* ---- the executable spec written from the property text holds of the model, for ALL histories (Proofs/C08Spec.v) *)
+Require Export PV.Proofs.C08SpecPinned.
